@@ -31,6 +31,19 @@ def c01_cases(rng, count, max_n=300, dtypes=None, shapes=None, orders=None, leve
     return cases
 
 
+def rl_range_cases(rng, count, dtypes=None):
+    """single chunks whose run-length range spans several values (see numgen rl_range)"""
+    cases = []
+    dtypes = dtypes or [d for d in lib.DTYPES if d != "bool"]
+    for i in range(count):
+        dt = rng.choice(dtypes)
+        shape = rng.choice(["rl_range", "rl_range_cum"])
+        xs = numgen.gen(dt, shape, 1, rng)
+        cases.append(dict(dt=dt, level=rng.choice([3, 3, 3, 2, 4]), order=1 if shape == "rl_range_cum" else 0,
+                          gcds=rng.randint(0, 1), chunks=[xs], shape=shape))
+    return cases
+
+
 def corpus_cases():
     """minimised past failures, always run first"""
     out = []
